@@ -301,6 +301,7 @@ pub struct CrashScenario;
 fn allowed_features() -> gen::problem::Features {
     let mut allowed = gen::problem::Features::all();
     allowed.req_breaks = false;
+    allowed.clustering = true;
     allowed
 }
 
@@ -365,7 +366,9 @@ fn judge(base: &CrashBase, model: &PModel, out: &RunOutcome<CrashOut>, what: &st
                         let (found, _) = check_all(model, &s);
                         for i in found {
                             // a solution returned after an interruption must satisfy C01-C03: these are C07 violations
-                            issues.push(("C07".into(), i.rule.to_string(), format!("{what}: [{}] {}", i.prop, i.msg)));
+                            // (the structural tag of the failing site travels inside the message: "[C01#tag]")
+                            let tag = if i.tag.is_empty() { String::new() } else { format!("#{}", i.tag) };
+                            issues.push(("C07".into(), i.rule.to_string(), format!("{what}: [{}{tag}] {}", i.prop, i.msg)));
                         }
                         if let Some(g) = s.generations {
                             if g > base.max_generations {
@@ -447,11 +450,20 @@ impl CrashScenario {
         if base.problem["fleet"].get("resources").is_some() {
             sig.push("shared-resource");
         }
+        if base.problem["plan"].get("clustering").is_some() {
+            sig.push("clustering");
+        }
+        if base.problem["plan"].get("relations").is_some() {
+            sig.push("relations");
+        }
         let sig = sig.join("|");
         let mut push = |rec: &mut CaseRecord, issues: Vec<(String, String, String)>| {
             let flagged = issues.iter().any(|(_, r, _)| r == "unreachable-leg");
             for (prop, rule, msg) in issues {
                 let mut s = sig.clone();
+                if let Some(tag) = msg.split_once("#").and_then(|(head, rest)| if head.ends_with("[C01") || head.ends_with("[C02") || head.ends_with("[C03") { rest.split_once(']').map(|(t, _)| t.to_string()) } else { None }) {
+                    s = if s.is_empty() { tag } else { format!("{s}|{tag}") };
+                }
                 if rule == "empty-tour" && msg.contains("breaks,") && !msg.contains("(0 breaks, 0 reloads)") {
                     s = if s.is_empty() { "marker-only-tour".into() } else { format!("{s}|marker-only-tour") };
                 }
